@@ -569,7 +569,47 @@ def family_H(tier):
     yield emit('uncaught', [raiser, ('print', lit_str("before")), ('handle', ('expr', ('call', 'risky', [lit_int(3)])), [('e', 'E1', [('print', lit_str("caught E1"))])]), ('print', lit_str("after"))], ['pos:uncaught'])
 
 
-FAMILIES = {'E': family_E, 'R': family_R, 'K': family_K, 'F': family_F, 'A': family_A, 'O': family_O, 'H': family_H}
+# ------------------------------------------------------- collections / tuples (T)
+
+def family_T(tier):
+    n = 0
+    I = lit_int
+
+    def emit(name, prog, tags):
+        nonlocal n
+        n += 1
+        return {"id": "T%d" % n, "family": "T." + name, "prog": prog, "tags": ['collection'] + tags}
+
+    for (t1, v1, use1), (t2, v2, use2) in [(("Int", I(5), lambda x: ('bin', '-', x, I(1))), ("Int", I(2), lambda x: ('bin', '*', x, I(3)))),
+                                           (("Str", lit_str("x"), lambda x: ('bin', '+', x, lit_str("!"))), ("Int", I(2), lambda x: ('bin', '+', x, I(1)))),
+                                           (("Int", I(4), lambda x: ('bin', '+', x, I(1))), ("Str", lit_str("y"), lambda x: ('bin', '+', x, lit_str("?"))))]:
+        tt = "(%s, %s)" % (t1, t2)
+        prog = [('fun', 'f', [('t', tt, None)], None, [], [('deftup', ['a', 'b'], var('t')), ('def', 'ra', t1, use1(var('a')), False), ('def', 'rb', t2, use2(var('b')), False),
+                                                            ('print', var('ra')), ('print', var('rb'))], 'block'),
+                ('def', 'u', tt, ('tuple', [v1, v2]), False), ('expr', ('call', 'f', [var('u')])), ('expr', ('call', 'f', [('tuple', [v1, v2])]))]
+        yield emit('tuple-param', prog, ['tuple:%s,%s' % (t1, t2)])
+        prog = [('fun', 'mk', [], tt, [], [('expr', ('tuple', [v1, v2]))]), ('deftup', ['a', 'b'], ('call', 'mk', [])),
+                ('def', 'ra', t1, use1(var('a')), False), ('def', 'rb', t2, use2(var('b')), False), ('print', var('ra')), ('print', var('rb'))]
+        yield emit('tuple-return', prog, ['tuple:%s,%s' % (t1, t2)])
+    yield emit('tuple3-param', [('fun', 'g', [('t', '(Int, Str, Int)', None)], 'Int', [], [('deftup', ['a', 'b', 'c'], var('t')), ('print', ('bin', '+', var('b'), lit_str("."))), ('expr', ('bin', '+', var('a'), var('c')))], 'block'),
+                               ('print', ('call', 'g', [('tuple', [I(1), lit_str("m"), I(2)])]))], ['tuple:3'])
+    for coll, lit in (("List", 'list'), ("Set", 'set')):
+        yield emit('sum-' + lit, [('fun', 'total', [('l', coll + '[Int]', None)], 'Int', [], [('def', 't', 'Int', I(0), False), ('for', 'i', var('l'), [('aug', '+', var('t'), var('i'))]), ('expr', var('t'))], 'block'),
+                                  ('print', ('call', 'total', [(lit, [I(1), I(2), I(3)])])), ('def', 'xs', coll + '[Int]', (lit, [I(4), I(5)]), False), ('print', ('call', 'total', [var('xs')]))], ['coll:' + coll])
+        yield emit('str-' + lit, [('def', 'ws', coll + '[Str]', (lit, [lit_str("a")]), False), ('for', 'w', var('ws'), [('print', ('bin', '+', var('w'), lit_str("!")))])], ['coll:' + coll])
+        yield emit('in-' + lit, [('def', 'xs', None, (lit, [I(1), I(2)]), False), ('print', ('in', I(1), var('xs'))), ('print', ('in', I(7), var('xs')))], ['coll:' + coll])
+    yield emit('list-index', [('def', 'l', 'List[Int]', ('list', [I(4), I(5), I(6)]), False), ('print', ('bin', '+', ('index', var('l'), I(1)), I(1))),
+                              ('def', 'k', 'Int', I(2), False), ('print', ('index', var('l'), var('k')))], ['coll:List'])
+    yield emit('list-of-class', [('class', 'Pt', [('v', 'Int', True)], [], [('fun', 'dbl', [], 'Int', [], [('expr', ('bin', '*', ('field', var('self'), 'v'), I(2)))])]),
+                                 ('def', 'ps', 'List[Pt]', ('list', [('new', 'Pt', [I(1)]), ('new', 'Pt', [I(2)])]), False),
+                                 ('for', 'p', var('ps'), [('print', ('mcall', var('p'), 'dbl', [])), ('print', ('field', var('p'), 'v'))])], ['coll:List'])
+    yield emit('list-arg-method', [('class', 'Bag', [], [], [('fun', 'count', [('l', 'List[Str]', None)], 'Int', [], [('def', 'c', 'Int', I(0), False), ('for', 'x', var('l'), [('aug', '+', var('c'), I(1))]), ('expr', var('c'))], 'block')]),
+                                   ('def', 'b', None, ('new', 'Bag', []), False), ('print', ('mcall', var('b'), 'count', [('list', [lit_str("a"), lit_str("b")])]))], ['coll:List'])
+    yield emit('tuple-in-list', [('def', 'ps', None, ('list', [('tuple', [I(1), lit_str("a")]), ('tuple', [I(2), lit_str("b")])]), False),
+                                 ('for', 'p', var('ps'), [('deftup', ['n', 's'], var('p')), ('print', ('bin', '+', var('n'), I(1))), ('print', ('bin', '+', var('s'), lit_str("!")))])], ['coll:List', 'tuple'])
+
+
+FAMILIES = {'T': family_T, 'E': family_E, 'R': family_R, 'K': family_K, 'F': family_F, 'A': family_A, 'O': family_O, 'H': family_H}
 
 
 def materialise(case):
@@ -579,7 +619,7 @@ def materialise(case):
     return case
 
 
-def pool(tier, families="ERKFAOH"):
+def pool(tier, families="ERKFAOHT"):
     for f in families:
         for case in FAMILIES[f](tier):
             yield materialise(case)
